@@ -14,6 +14,7 @@ import felupe as fem
 from felupe import math as fm
 
 from .. import gen
+from ..apicall import call as api
 from ..kernel import Discard, SimWorkerError, Streams, Violation, adigest, close_exact_twin
 from ..sched import SimPool
 
@@ -264,12 +265,12 @@ class Machine:
                 self.log.count("variant:determinant")
                 detA = fm.det(A)
                 dd = adigest(detA)
-                got = fm.inv(A, determinant=detA)
+                got = api("math.inv", fm.inv, op["seed"], A, determinant=detA)
                 self.check_same(name, "determinant=", got, plain, name)
                 if adigest(detA) != dd:
                     self.V("inputs-unchanged", "inv modified the supplied determinant", site="inv.determinant")
             if name == "inv" and op.get("full_output"):
-                got, dt = fm.inv(A, full_output=True)
+                got, dt = api("math.inv", fm.inv, op["seed"], A, full_output=True)
                 self.check_same(name, "full_output", got, plain, name)
                 self.check_ref("inv.det", dt, np.linalg.det(Ai), site="inv.full_output")
             self.unchanged(name, [A], digs, "flags")
@@ -297,7 +298,7 @@ class Machine:
                 B = tensor(rng, (d,), b, bcB)
                 ref = np.einsum("i...,j...->ij...", A, B)
                 mode = 1
-            run_variants(lambda out, parallel: fm.dya(A, B, mode=mode, parallel=parallel, **({"out": out} if out is not None else {})), [A, B], ref, 4, supports_par=True)
+            run_variants(lambda out, parallel: api("math.dya", fm.dya, op["seed"], A, B, mode=mode, parallel=parallel, **({"out": out} if out is not None else {})), [A, B], ref, 4, supports_par=True)
         elif name in ("cdya_ik", "cdya_il", "cdya"):
             A = tensor(rng, (d, d), b, bcA)
             B = tensor(rng, (d, d), b, bcB)
@@ -305,7 +306,7 @@ class Machine:
             il = np.einsum("ij...,kl...->ilkj...", A, B)
             ref = {"cdya_ik": ik, "cdya_il": il, "cdya": 0.5 * (ik + il)}[name]
             f = getattr(fm, name)
-            run_variants(lambda out, parallel: f(A, B, parallel=parallel, **({"out": out} if out is not None else {})), [A, B], ref, 4, supports_par=True)
+            run_variants(lambda out, parallel: api("math." + name, f, op["seed"], A, B, parallel=parallel, **({"out": out} if out is not None else {})), [A, B], ref, 4, supports_par=True)
         elif name in ("dot", "ddot", "dddot"):
             mode = tuple(op.get("mode", (3, 3)))
             if name == "dddot":
@@ -325,7 +326,7 @@ class Machine:
             # definition by explicit loops over the contracted indices per batch item
             ref = np.einsum(f"{la}...,{lb}...->{lo}...", A, B)
             f = getattr(fm, name)
-            run_variants(lambda out, parallel: f(A, B, mode=mode, parallel=parallel, **({"out": out} if out is not None else {})), [A, B], ref, len(lo), supports_par=True)
+            run_variants(lambda out, parallel: api("math." + name, f, op["seed"], A, B, mode=mode, parallel=parallel, **({"out": out} if out is not None else {})), [A, B], ref, len(lo), supports_par=True)
         elif name in ("transpose1", "transpose2"):
             if name == "transpose1":
                 A = tensor(rng, (d, d), b, bcA)
@@ -391,7 +392,7 @@ class Machine:
             st = bool(op.get("strain"))
             ij = [(0, 0), (1, 1), (2, 2), (0, 1), (1, 2), (0, 2)] if dd == 3 else [(0, 0), (1, 1), (0, 1)]
             ref = np.array([A[i, j] * (2.0 if (st and i != j) else 1.0) for i, j in ij])
-            run_variants(lambda out, parallel: fm.tovoigt(A, strain=st), [A], ref, 1, supports_out=False)
+            run_variants(lambda out, parallel: api("math.tovoigt", fm.tovoigt, op["seed"], A, strain=st), [A], ref, 1, supports_out=False)
         elif name == "von_mises":
             dd = max(d, 2)
             A = tensor(rng, (dd, dd), b, bcA, symmetric=True)
@@ -436,7 +437,7 @@ class Machine:
             a = np.deg2rad(op["angle"])
             ax = op["axis"]
             dim = 3 if d >= 2 else 2
-            R = fm.rotation_matrix(op["angle"], dim=dim, axis=ax if dim == 3 else 0)
+            R = api("math.rotation_matrix", fm.rotation_matrix, op["seed"], op["angle"], dim=dim, axis=ax if dim == 3 else 0)
             if dim == 2:
                 ref = np.array([[np.cos(a), -np.sin(a)], [np.sin(a), np.cos(a)]])
             else:
@@ -468,7 +469,7 @@ class Machine:
             k = op["k"]
             ref = np.log(lam) if k == 0 else (lam**k - 1) / k
             dg = adigest(lam)
-            got = fm.strain_stretch_1d(lam, k=k)
+            got = api("math.strain_stretch_1d", fm.strain_stretch_1d, op["seed"], lam, k=k)
             self.check_ref(name, got, ref, site="strain_stretch_1d")
             self.unchanged(name, [lam], [dg], "plain")
             self.sigs.append(name)
@@ -482,7 +483,7 @@ class Machine:
                 Fd = tensor(rng, (dd, dd), b, bcA, near_identity=True)
                 Cc = np.einsum("ki...,kj...->ij...", Fd, Fd)
                 dg = adigest(Cc)
-                got = fm.strain(None, C=Cc, tensor=op["tensor"], asvoigt=op["asvoigt"], **kw)
+                got = api("math.strain", fm.strain, op["seed"], None, C=Cc, tensor=op["tensor"], asvoigt=op["asvoigt"], **kw)
                 self.unchanged(name, [Cc], [dg], "plain")
             else:
                 import felupe as fem
@@ -519,7 +520,7 @@ class Machine:
             vals_ = op.get("values", 0.25)
             if isinstance(vals_, dict):  # numpy integer scalar / integer array
                 vals_ = np.int64(vals_["v"]) if vals_["np"] == "int64" else np.asarray(vals_["v"], dtype=int)
-            got = fm.linsteps(pts, num=num, endpoint=endpoint, axis=op["axis"], axes=None if op["axis"] is None else ax_n, values=vals_)
+            got = api("math.linsteps", fm.linsteps, op["seed"], pts, num=num, endpoint=endpoint, axis=op["axis"], axes=None if op["axis"] is None else ax_n, values=vals_)
             nums = list(np.array([num]).ravel())
             segs = max(len(pts) - 1, 0)
             if len(nums) == 1:
@@ -565,7 +566,17 @@ def run(doc, log):
     m.chunked = False
     with pool:
         for k, op in enumerate(doc["ops"]):
-            m.step(op, pool)
+            try:
+                m.step(op, pool)
+            except (Violation, Discard):
+                raise
+            except Exception as e:
+                from ..kernel import origin
+
+                if origin(e) != "felupe":
+                    raise
+                # a valid call (documented arguments, documented order) must return, not raise
+                raise Violation(PROP, "definition", f"{op['r']}: valid call raised {type(e).__name__}: {e}", site=f"{op['r']}.raised")
             log.ev("op", k=k, r=op["r"])
     if pool.fired and not m.fired:
         raise Violation(PROP, "worker-fault", "a pool job failed but no call raised", site="pool")
